@@ -1,8 +1,8 @@
-// Control for the known finding "call-to-main" (call_main_nontail.sc): here `main` is only called in
-// TAIL position, where the continuation passed (and ignored by the callee) is main's own `exit`
-// continuation, so source semantics, Core machine (modulo the arity) and native binary agree on
-// stdout "3\n" and exit status 0.  NOTE: the Core program is still ill-formed (`main(0, mutilde x0. exit x0)`
-// against `def main(n: prd i64)`), which the Core abstract machine of Sem/CoreSem.v reports as
+// Control for the FORMER finding "call-to-main" (call_main_nontail.sc; repaired in /repo by <commitmain>): here `main` is
+// only called in TAIL position.  Before the fix the Core program was ill-formed (`main(0, mutilde x0. exit x0)` against
+// `def main(n: prd i64)`, Core machine stuck "call-arity") although the native binary happened to behave.  Now main has a
+// return continuation and the program starts at main0; stdout "3\n", exit status 0 everywhere.
+def main(n: prd i64)`), which the Core abstract machine of Sem/CoreSem.v reports as
 // stuck "call-arity"; the detector calls_main_prog classifies that too.
 def main(n: i64): i64 {
     if n == 0 {
